@@ -203,8 +203,7 @@ func (vc *VC) specExpr(env *Env, e SExpr) (Term, types.Type) {
 		}
 		key := sanitize(vc.structKey(ty))
 		s := vc.sortOf(ty)
-		vc.q.DeclareFun("box$"+key, []Sort{s}, SPtr)
-		vc.q.DeclareFun("unbox$"+key, []Sort{SPtr}, s)
+		vc.declareBox(key, s)
 		return App(s, "unbox$"+key, IVal(v)), ty
 	}
 	env.fail("unsupported spec expression %s", specString(e))
@@ -962,6 +961,21 @@ func (vc *VC) specCall(env *Env, x *SCall) (Term, types.Type) {
 			env.fail("captured(%s): this function captures no variable of that type", tyText)
 		}
 		return vc.load(env.st, vc.val(env.fr, hit), ty), ty
+	case "smhas", "smval":
+		// contents of a sync.Map (ghost): smhas(&m, k) - k has an entry; smval(&m, k) - the value stored under k
+		need(2)
+		p, _ := vc.specExpr(env, x.Args[0])
+		k, kt := vc.specExpr(env, x.Args[1])
+		if p.Sort != SPtr {
+			env.fail("%s needs a pointer to a sync.Map", id.Name)
+		}
+		if k.Sort != SIface {
+			k = vc.makeIface(k, kt)
+		}
+		if id.Name == "smhas" {
+			return Select(Select(vc.get(env.st, "SM_has", smHasSort), p), k), boolT
+		}
+		return Select(Select(vc.get(env.st, "SM_val", smValSort), p), k), types.NewInterfaceType(nil, nil)
 	case "dyntype":
 		need(1)
 		v, _ := vc.specExpr(env, x.Args[0])
@@ -1396,6 +1410,16 @@ func (vc *VC) specAddr(env *Env, e SExpr) (Term, types.Type) {
 						if t, ok := env.fr.vals[a]; ok {
 							return t, a.Type().Underlying().(*types.Pointer).Elem()
 						}
+					}
+				}
+			}
+		}
+		// a package-level variable
+		if env.pkg != nil {
+			if o, ok := env.pkg.Scope().Lookup(x.Name).(*types.Var); ok {
+				if sp := vc.eng.prog.Package(o.Pkg()); sp != nil {
+					if g, ok := sp.Members[o.Name()].(*ssa.Global); ok {
+						return vc.val(vc.top, g), o.Type()
 					}
 				}
 			}
